@@ -341,17 +341,36 @@ def search(mod, args):
     planned = 0
     truncated = False
     stopped_early = False
+    # Time budget: the planned number of runs is what an unloaded 16-core machine does well inside the budget.  On a
+    # slower or busy machine the search stops handing out work when the budget is used up (the chunks of all
+    # configurations are interleaved, so every configuration gets its share), finishes the chunks that are running and
+    # judges what was executed; the evidence says so (budget_reached, runs done vs planned).  The hard cap below is for
+    # a search that does not come back at all - that is a harness error, never a verdict.
+    budget = float(os.environ.get("VERIF_BUDGET_S", 0)) or wall_cap * (0.6 if args.tier == "quick" else 0.8)
+    budget_reached = False
     with _pool(mod.__name__, args.procs) as pool:
         futs = []
+        per_cfg = []
         for cfgname, cfg, nruns, chunk in plan:
             nruns = max(1, int(nruns * args.scale))
             planned += nruns
-            for start in range(0, nruns, chunk):
-                idx = list(range(start, min(nruns, start + chunk)))
-                futs.append(pool.submit(_chunk, mod.__name__, cfgname, cfg, args.seed, idx,
-                                        2 if start == 0 else 0))
+            per_cfg.append([(cfgname, cfg, list(range(start, min(nruns, start + chunk))), 2 if start == 0 else 0)
+                            for start in range(0, nruns, chunk)])
+        longest = max(len(c) for c in per_cfg)
+        for j in range(longest):
+            for chunks in per_cfg:
+                # proportional interleaving: configuration c hands out its j-th share of chunks
+                lo, hi = j * len(chunks) // longest, (j + 1) * len(chunks) // longest
+                for cfgname, cfg, idx, keep in chunks[lo:hi]:
+                    futs.append(pool.submit(_chunk, mod.__name__, cfgname, cfg, args.seed, idx, keep))
         try:
             for f in concurrent.futures.as_completed(futs, timeout=wall_cap):
+                if f.cancelled():
+                    continue
+                if not budget_reached and time.time() - t0 > budget:
+                    budget_reached = True
+                    for g in futs:
+                        g.cancel()          # only chunks that have not started are dropped
                 agg = f.result()
                 t = total[agg["cfgname"]]
                 for k in ("runs", "evaluations", "sim_time", "steps", "wall"):
@@ -454,6 +473,10 @@ def search(mod, args):
                 unconfirmed.append((sig, path, viol))
 
     wall = time.time() - t0
+    args.budget_info = {"time_budget_s": round(budget, 1), "time_budget_reached": budget_reached, "stopped_early_on_violations": stopped_early}
+    if budget_reached:
+        done = sum(t["runs"] for t in total.values())
+        print(f"note: time budget of {budget:.0f}s used up after {done} of {planned} planned runs; the verdict is for the runs executed")
     if not args.no_evidence:
         write_evidence(mod, args, total, planned, wall, known_hit, confirmed, unconfirmed)
     runs = sum(t["runs"] for t in total.values())
@@ -520,6 +543,7 @@ def write_evidence(mod, args, total, planned, wall, known_hit, confirmed, unconf
         "known_findings_seen": {sig: len(lst) for sig, lst in known_hit.items()},
         "worker_processes": args.procs,
     }
+    cov.update(getattr(args, "budget_info", {}))
     if getattr(mod, "EXHAUSTIVE_NOTE", None):
         cov["enumeration"] = mod.EXHAUSTIVE_NOTE
     ev = {
